@@ -9,7 +9,7 @@ PROPERTY = 'C10'
 BUDGET = {'quick': 150, 'thorough': 900}
 LAST_CONFIG_INFO = {}
 
-RATES = [('1', '1.25'), ('1', '0.9683'), ('100', '16327'), ('1', '0.512821'), ('1', '0.546448'), ('1000', '2.05'),
+RATES = [('1', '1.3333333333'), ('755', '1000'), ('1', '4/3'), ('1', '1.25'), ('1', '0.9683'), ('100', '16327'), ('1', '0.512821'), ('1', '0.546448'), ('1000', '2.05'),
          ('1', '163.27'), ('1', '0.000123'), ('10', '12.5'), ('1', '1.09827'), ('1', '99999.999999'), ('1', '7.5')]
 
 META = {
@@ -65,9 +65,12 @@ def money_rate(E, cfg):
     mode = C.mode(cfg['mode'])
     cu, ct = (Money.register_currency(c) for c in cfg['pair'])
     other = Money.register_currency('HKD')
-    rate = ExchangeRate(cu, int(cfg['um']), ct, Decimal(cfg['amt']))
-    true_rate = Fraction(cfg['amt']) / int(cfg['um'])
-    E.check(rate.rate == true_rate, 'rate-exact-for-six-digit-input')
+    amt = C.num(cfg['amt'])
+    rate = ExchangeRate(cu, int(cfg['um']), ct, amt)
+    # the rate that is applied is the stored (normalised, six-digit) one: C09 relates it to the input
+    true_rate = Fraction(rate.rate.numerator, rate.rate.denominator)
+    given = Fraction(cfg['amt']) / int(cfg['um'])
+    E.check(abs(true_rate - given) <= Fraction(5, 10 ** 7), 'stored-rate-close-to-given')
     a = E.rational('a', cfg['flav'])
     m = Money(a, cu)
     qt, qu = _q(cfg['pair'][1]), _q(cfg['pair'][0])
@@ -127,12 +130,16 @@ def _catalogue():
     d['EUR/g'] = PPM.derive_unit_from(eur, pre.GRAM)
     d['USD/lb'] = PPM.derive_unit_from(usd, pre.POUND)
     d['EUR/m'] = PPL.derive_unit_from(eur, pre.METRE)
+    # price units whose currency sits one level down in their definition (scaled price unit)
+    d['EUR/100kg'] = PPM.new_unit('EUR/100kg', None, Fraction(1, 100) * d['EUR/kg'])
+    d['HKD/100kg'] = PPM.new_unit('HKD/100kg', None, Fraction(1, 100) * d['HKD/kg'])
     return d
 
 
 # mass (in kg) of the mass unit inside each declared price unit
-_PER = {'EUR/kg': Fraction(1), 'HKD/kg': Fraction(1), 'EUR/g': Fraction(1, 1000), 'USD/lb': Fraction('0.45359237')}
-_CUR = {'EUR/kg': 'eur', 'HKD/kg': 'hkd', 'EUR/g': 'eur', 'USD/lb': 'usd', 'EUR/m': 'eur'}
+_PER = {'EUR/kg': Fraction(1), 'HKD/kg': Fraction(1), 'EUR/g': Fraction(1, 1000), 'USD/lb': Fraction('0.45359237'),
+        'EUR/100kg': Fraction(100), 'HKD/100kg': Fraction(100)}
+_CUR = {'EUR/100kg': 'eur', 'HKD/100kg': 'hkd', 'EUR/kg': 'eur', 'HKD/kg': 'hkd', 'EUR/g': 'eur', 'USD/lb': 'usd', 'EUR/m': 'eur'}
 
 
 def price_rate(E, cfg):
@@ -146,7 +153,8 @@ def price_rate(E, cfg):
              ('HKD/kg', 'eur', 'hkd', 'div'), ('USD/lb', 'eur', 'usd', 'div'), ('HKD/kg', 'eur', 'usd', 'mul'),
              ('EUR/kg', 'usd', 'hkd', 'mul'), ('EUR/kg', 'eur', 'hkd', 'div'), ('EUR/m', 'eur', 'usd', 'mul'),
              ('kg', 'eur', 'usd', 'mul'), ('m/s', 'eur', 'usd', 'mul'), ('kg', 'eur', 'usd', 'div'),
-             ('EUR/g', 'hkd', 'eur', 'div'), ('rmul:EUR/kg', 'eur', 'hkd', 'mul')]
+             ('EUR/g', 'hkd', 'eur', 'div'), ('rmul:EUR/kg', 'eur', 'hkd', 'mul'), ('EUR/100kg', 'eur', 'hkd', 'mul'),
+             ('rmul:EUR/100kg', 'eur', 'hkd', 'mul'), ('HKD/100kg', 'eur', 'hkd', 'div')]
     pu, rcu, rct, op = E.choice('case', cases)
     rmul = pu.startswith('rmul:')
     pu = pu.split(':')[-1]
